@@ -8,8 +8,9 @@
     and return does not depend on it.
 
       - process environment                 -> [env]         (x/paloma/keeper/msg_server.go AddStatusUpdate)
-      - wall clock, GOMAXPROCS              -> [wallclock], [gomaxprocs]   (no site reads them; they
-                                               are fields so that non-interference quantifies over them)
+      - wall clock, GOMAXPROCS, time zone   -> [wallclock], [gomaxprocs], [tz]   (no site reads them; they
+                                               are fields so that non-interference quantifies over them;
+                                               [vest_end_local] shows what reading [tz] would do)
       - Go map iteration order              -> [ord_*] : an arbitrary function that must return a
                                                permutation of its argument; a second loop over the same map
                                                takes [ord (ord l)], i.e. in general a different order
@@ -21,7 +22,7 @@
     both are tied to the code by their own correspondence runs and by this property's.
     Definitions only. *)
 From Coq Require Import List ZArith Bool String Permutation.
-From Paloma Require Import Base.Dec Evm.Assign Cons.Quorum.
+From Paloma Require Import Base.Dec Evm.Assign Cons.Quorum Sys.Calendar.
 From Paloma Require Gen.C08.
 Import ListNotations.
 Open Scope Z_scope.
@@ -30,6 +31,8 @@ Record Ambient := {
   env : string -> option string;
   wallclock : Z;
   gomaxprocs : Z;
+  tz : Z -> Z;                                   (* the process's time zone (TZ, /etc/localtime): offset east of Greenwich
+                                                    at an instant, in seconds — what time.Local / time.Unix / t.Local() see *)
   ord_infos : list vinfo -> list vinfo;          (* rankValidators: range validatorsInfos (twice) *)
   ord_groups : list (@group Z) -> list (@group Z); (* VerifyEvidence: range groups *)
   ord_updates : list (Z * Z) -> list (Z * Z);    (* PurgeRelayMetrics: range updates *)
@@ -181,7 +184,8 @@ Inductive Tx :=
 | TxPurge (ups : list (Z * Z))
 | TxWorthy (keys present : list Z)
 | TxJail (keys present : list Z)
-| TxEvidence (gk : Z -> Z -> Z) (sn : Quorum.snapshot) (evs : list evidence).
+| TxEvidence (gk : Z -> Z -> Z) (sn : Quorum.snapshot) (evs : list evidence)
+| TxVest (t months : Z).   (* MsgRegisterLightNodeClient at block time t (seconds), licence with [months] vesting months *)
 
 Inductive Result :=
 | RStatus (r : status_result)
@@ -189,7 +193,12 @@ Inductive Result :=
 | RUnit
 | RBool (b : bool)
 | RKeys (l : list Z)
-| REvidence (o : outcome).
+| REvidence (o : outcome)
+| RVest (start stop : Z).  (* the vesting account written to the auth store *)
+
+(** CreateLightNodeClientAccount with the block time re-made in the process's zone (time.Unix): the
+    shape of seeded change C08-C, kept only to state that the zone would be an input ([Sys/CalendarProofs.v]). *)
+Definition vest_end_local (a : Ambient) (t months : Z) : Z := add_months (tz a) t months.
 
 Definition step_amb (a : Ambient) (s : State) (tx : Tx) : State * Result :=
   match tx with
@@ -201,6 +210,7 @@ Definition step_amb (a : Ambient) (s : State) (tx : Tx) : State * Result :=
   | TxWorthy keys present => (s, RBool (any_missing_amb a keys present))
   | TxJail keys present => (s, RKeys (sorted_missing_amb a keys present))
   | TxEvidence gk sn evs => (s, REvidence (verify_evidence Z.eqb gk (ord_groups a) sn evs))
+  | TxVest t months => (s, RVest t (vest_end t months))   (* the block time is in UTC on every node: [tz a] is not read *)
   end.
 
 (** Side conditions under which a transaction is meaningful: a Go map has distinct keys; the
@@ -233,7 +243,7 @@ Definition prefix_of (p s : string) : bool := String.prefix p s.
 Definition covering_names : list string :=
   ["ambient_noninterference_partial"; "rank_perm_invariant"; "pick_perm_invariant"; "verify_evidence_perm_invariant";
    "purge_perm_invariant"; "any_order_bool_perm_invariant"; "sorted_collect_perm_invariant";
-   "set_build_perm_invariant"; "node_local_activity_invisible_partial"]%string.
+   "set_build_perm_invariant"; "node_local_activity_invisible_partial"; "vesting_calendar_in_utc"]%string.
 
 (** The syntactic rules of the translator and the theorem that justifies each ("" = justified by
     syntax alone: a decoded protobuf message is a per-transaction value, not keeper memory).  An
@@ -241,7 +251,14 @@ Definition covering_names : list string :=
 Definition auto_rules : list (string * string) :=
   [("collect-then-sort", "sorted_collect_perm_invariant");   (* keys appended, then sorted by a total order *)
    ("map-insert-only", "set_build_perm_invariant");          (* body only inserts into / deletes from a map *)
-   ("proto-message-receiver", "")]%string.
+   ("proto-message-receiver", "");
+   (* round 3: time values.  A time.Unix / time.Date(.., loc) / time.Parse / t.In(loc) result consumed only by
+      operations on the instant (Unix, UnixNano, Sub, Before, After, Equal, Compare, UTC ...): the zone it carries is
+      never looked at.  A calendar method (AddDate, Format, Year ...) or a rendering through an interface parameter
+      whose receiver is in UTC by construction (x.UTC(), sdk.Context.BlockTime(), or a local variable only ever
+      assigned such values): [add_months utc], no ambient input. *)
+   ("instant-only", "");
+   ("utc-receiver", "vesting_calendar_in_utc")]%string.
 
 Definition auto_ok (r : string) : bool :=
   existsb (fun p => String.eqb r (fst p) &&
